@@ -136,7 +136,9 @@ func (w *world) handleMsg(pt string, data []byte) entryRes {
 }
 
 // wrapped builds a properly signed consensus message around a (possibly hostile) payload, as a validator would.
-func (w *world) wrapped(codeName string, payload []byte) []byte { return w.wrappedBy(1, codeName, payload) }
+func (w *world) wrapped(codeName string, payload []byte) []byte {
+	return w.wrappedBy(1, codeName, payload)
+}
 
 func (w *world) wrappedBy(key int, codeName string, payload []byte) []byte {
 	code := ucon.StringToMessageCode(codeName)
